@@ -81,6 +81,12 @@ def run(ctx):
     ctx.rule('C05-R5 default paddings (shared with C09)')
     cmp_fn(ctx, 'pkcs7.lastblock', PAD, 'pkcs7.lastblock', P.PKCS7_LAST, holes={})
     cmp_fn(ctx, 'pkcs7.remove', PAD, 'pkcs7.remove', P.PKCS7_REMOVE)
+    cmp_fn(ctx, 'X923.lastblock', PAD, 'X923.lastblock', P.X923_LAST, holes={})
+    cmp_fn(ctx, 'X923.remove', PAD, 'X923.remove', P.X923_REMOVE)
+    cmp_fn(ctx, 'bitpadding.lastblock', PAD, 'bitpadding.lastblock', P.BIT_LAST, holes={})
+    cmp_fn(ctx, 'bitpadding.remove', PAD, 'bitpadding.remove', P.BIT_REMOVE)
+    cmp_fn(ctx, 'Nullpadding.lastblock', PAD, 'Nullpadding.lastblock', P.NULL_LAST)
+    cmp_fn(ctx, 'Nullpadding.remove', PAD, 'Nullpadding.remove', P.NULL_REMOVE)
     cmp_fn(ctx, 'nopadding.lastblock', PAD, 'nopadding.lastblock', P.NOPAD_LAST)
     cmp_fn(ctx, 'nopadding.remove', PAD, 'nopadding.remove', P.NOPAD_REMOVE)
     cmp_fn(ctx, 'blockiterator.iterblocks', PAD, 'blockiterator.iterblocks', H.ITERBLOCKS)
